@@ -15,7 +15,7 @@ func TestDbgTiming(t *testing.T) {
 	}
 	x := &mon.Ctx{Prop: "C16", Workload: "c16.signed.alter", Seed: 1, Tier: "quick", Shards: 1, Only: -1}
 	x.Open("/tmp/c16/dbg.jsonl", "")
-	for i := 0; i < 100; i++ {
+	for i := 0; i < 30; i++ {
 		c := x.Begin("dbg")
 		lens := sweepLens
 		s := genSigned(c.R, i, lens)
